@@ -201,7 +201,7 @@ def cpm_cases(ctx):
         if bad:
             ctx.disagreements_checked += 1
             ctx.violation('convert_to_cpm and its model disagree: ' + bad,
-                          {'class': 'corr:Normalize.cpm_row', 'rows': rows, 'dtype': np.dtype(dt).name, 'model': r,
+                          {'class': 'corr:Normalize.cpm_row', 'kind': 'convert_to_cpm', 'rows': rows, 'dtype': np.dtype(dt).name, 'model': r,
                            'impl': out.tolist()}, no_input=True)
     ctx.sample({'kind': 'convert_to_cpm', 'rows': mats[0][0], 'dtype': np.dtype(mats[0][1]).name, 'model': res[0]}, limit=6)
 
@@ -733,5 +733,66 @@ def paired_runs(ctx):
 
 
 def replay(ctx, rec):
-    print(json.dumps(rec, indent=1)[:6000])
+    """Re-run one recorded case through implementation and model and print both."""
+    kind = rec.get('kind')
+    print(json.dumps({k: v for k, v in rec.items() if k not in ('model', 'impl')}, indent=1)[:6000])
+    if kind is None and 'rows' in rec and 'dtype' in rec and 'ops' not in rec:
+        kind = 'convert_to_cpm'
+    if kind == 'convert_to_cpm':
+        from cell_type_mapper.cell_by_gene.utils import convert_to_cpm
+        out = convert_to_cpm(np.array(rec['rows'], dtype=np.dtype(rec['dtype'])))
+        mod = ctx.model([(701, rec['rows'])])[0]
+        print('implementation:', [[repr(float(v)) for v in row] for row in out])
+        print('model (num den):', mod)
+        bad = 0
+        for i, row in enumerate(rec['rows']):
+            ex = row_is_exact(row, bits_of(rec['dtype']))
+            for j in range(len(row)):
+                okv = check_cpm_value(out[i, j], frac_of(mod[1][i][j]), ex)
+                bad += not okv
+                print(f'  row {i} entry {j}: {"exact" if ex else "1e-12"} comparison -> {"agree" if okv else "DISAGREE"}')
+        return 1 if bad else 0
+    if kind == 'CellByGeneMatrix-ops':
+        from cell_type_mapper.cell_by_gene.cell_by_gene import CellByGeneMatrix
+        ops = rec['ops']
+        wire_ops = [[0] if o[0].startswith('log') else [1, o[1]] for o in ops]
+        mod = ctx.model([(703, [rec['genes'], rec['rows'], NORM_WIRE.get(rec['normalization'], 5), wire_ops])])[0]
+        try:
+            m = CellByGeneMatrix(data=np.array(rec['rows'], dtype=np.dtype(rec['dtype'])),
+                                 gene_identifiers=[gname(g) for g in rec['genes']], normalization=rec['normalization'])
+            for o in ops:
+                if o[0] == 'log_inplace':
+                    m.to_log2CPM_in_place()
+                elif o[0] == 'log_new':
+                    m = m.to_log2CPM()
+                elif o[0] == 'down_new':
+                    m = m.downsample_genes([gname(g) for g in o[1]])
+                else:
+                    m.downsample_genes_in_place([gname(g) for g in o[1]])
+            print('implementation: genes', m.gene_identifiers, 'normalization', m.normalization, 'downsampled',
+                  m._genes_downsampled, 'data', np.asarray(m.data).tolist())
+            impl_ok = True
+        except Exception as e:      # noqa
+            print('implementation raised', err_code(e), f'{exc_class(e)}: {e}')
+            impl_ok = False
+        print('model:', mod, '(data are exact CPM values num/den; log2(1+.) is applied by the harness)')
+        return 0 if impl_ok == (mod[0] == 0) else 1
+    if kind == 'prepare_query':
+        from cell_type_mapper.taxonomy.taxonomy_tree import TaxonomyTree
+        tt = TaxonomyTree(data=rec['tree'])
+        rows = rec['rows(/8 if declared log2CPM)']
+        dt = np.dtype(rec['dtype'])
+        if rec['declared'] == 'raw':
+            arr, wire = np.array(rows, dtype=dt), rows
+        else:
+            arr, wire = (np.array(rows, dtype=np.float64) / 8.0).astype(dt), [[[x, 8] for x in r] for r in rows]
+        mod = ctx.model([(706, [rec['query_genes'], 0 if rec['declared'] == 'raw' else 1, wire, rec['lists_reference_order']])])[0]
+        obs = real_prepare(ctx, 'replay', tt, tt.all_parents, [gname(g) for g in rec['query_genes']],
+                           [gname(g) for g in rec['ref_genes']], rec['marker_lookup'], arr, rec['declared'],
+                           rec['encoding'], rec['chunk'])
+        print('implementation:', obs[1:] if obs[0] == 'err' else [[g, [x.tolist() for x in dd]] for g, dd in obs[2]])
+        print('model:', mod, '(raw input: exact CPM values num/den, log2(1+.) applied by the harness)')
+        return 0 if (obs[0] == 'ok') == (mod[0] == 0) else 1
+    print('paired real runs are replayed by re-running the two configurations printed above through '
+          'harness.paired.run_once (tree, markers, raw matrix and both configurations are in the record)')
     return 0
